@@ -137,8 +137,9 @@ func zzC06(nPods int) {
 		if cp.waiting != "" {
 			cs.State.Waiting = &corev1.ContainerStateWaiting{Reason: cp.waiting}
 		}
-		// kubelet contract: a container that restarted has a last termination state
-		if cp.restarts > 0 {
+		// a container that restarted normally has a last termination state; the kubelet drops it when
+		// the dead container was garbage collected or the node rebooted — the count still counts
+		if cp.restarts > 0 && (narrow || nondet.Bool(l+".lastStateKnown")) {
 			cp.hasFinished = true
 			cp.finishedAt = nondet.TimeNs(l+".finishedAt", -30*24*time.Hour, 24*time.Hour)
 			cs.LastTerminationState.Terminated = &corev1.ContainerStateTerminated{
